@@ -94,6 +94,20 @@ where
         panic!("rig: swarm did not quiesce within 1000 polls");
     }
 
+    /// Exactly one call of `Swarm::poll_next` (no re-poll on wake-up): exposes intermediate states such as
+    /// "a connection task has queued its result but the pool has not processed it yet". Returns whether an event came out.
+    pub fn poll_raw(&mut self) -> bool {
+        let mut cx = self.det.cx();
+        match Pin::new(&mut self.swarm).poll_next(&mut cx) {
+            Poll::Ready(Some(ev)) => {
+                let v = self.swarm_event(&ev);
+                self.log.push(v);
+                true
+            }
+            _ => false,
+        }
+    }
+
     /// Poll to quiescence; returns the number of SwarmEvents returned.
     pub fn poll_quiescent(&mut self) -> usize {
         let mut n = 0;
